@@ -1,6 +1,7 @@
 (* Props/C11.v - Server-side cursors deliver every row exactly once, in order. *)
 From Coq Require Import List Arith NArith Lia Bool.
 From MM Require Import Lib.Bytes Model.Conn Model.Resp Proofs.RespProofs Proofs.FetchProofs Gen.FactsConn.
+From MM Require Import Gen.FactsOutline.
 Import ListNotations.
 Open Scope N_scope.
 
@@ -14,6 +15,12 @@ Theorem c11_source_shape :
   status_cursor_exists = FL_CURSOR_EXISTS /\ status_last_row_sent = FL_LAST_ROW_SENT /\
   packets_parse_handle_stmt_fetch_ok = true /\ packets_read_cursor_flags_ok = true.
 Proof. repeat split; reflexivity. Qed.
+
+(* the modules this property rests on define the functions, classes, methods and class-level names they defined when the
+   model was transcribed - nothing added (an override, a new helper in the path), removed or renamed *)
+Theorem c11_module_outlines : translated_outline = true /\ outline_connection_ok = true /\ outline_prepared_ok = true /\ outline_utils_ok = true.
+Proof. repeat split; reflexivity. Qed.
+
 
 (* one fetch of `want` rows on a cursor whose source still holds `items` (rows, waits, possibly a raise):
    the rows written are the next min(want, rows left) ones, in order, each pulled row is written *)
